@@ -341,6 +341,9 @@ def b_minmax(which):
     f = V.maxv if which == 'max' else V.minv
 
     def g(it, *args, **kw):
+        if len(args) == 1 and isinstance(args[0], LArr) and args[0].ndim == 1 and is_sym(V.simp(args[0].shape[0]) if is_sym(args[0].shape[0]) else args[0].shape[0]):
+            from . import nplib
+            return (nplib.np_max if which == 'max' else nplib.np_min)(it, args[0])      # python max()/min() over a 1-D array == np.max / np.min
         if len(args) == 1:
             items = it.iterate(args[0])
         else:
